@@ -64,6 +64,13 @@ NOTES = {
     "C16-s8": "first missed: re-stamping only what was really stamped (a link touched without following leaves its target alone); symlinked outputs family in C16",
     "C06-s8": "C06 first missed it (C01 caught it): jobs that give outputs the time stamp of their newest input (ties)",
     "C02-s7": "C07 first missed it (C02 caught it): workflow written top-down (dependents defined first); C07 replay of a failing run fixed",
+    "C20-s7": "first missed: float-looking text (1.10, 1e3, .50, nan, Infinity) in the value alphabet",
+    "C17-s8": "first missed: one target selected twice (overlapping patterns, same name twice)",
+    "C11-s8": "C11 first missed it (C14 caught it): a task depending on an id the pool never issued (a number; the string form of a live id) must never start",
+    "C15-s7": "first missed: a declared output that is a directory with other files inside",
+    "C14-s8": "first missed: a client that asks and never reads (virtual: drain() never returns; socket tier: flood without reading)",
+    "C19-s7": "first missed: workflow files with other names (`gwf_pipeline.py`, `flow-1.py`) given with -f",
+    "C19-s8": "C03 first missed it (C19 caught it): path objects that are not pathlib paths as a container shape in C03",
     "C07-s8": "first missed: the scheduler moves while gwf is submitting (one environment step before the k-th scheduler command of a run)",
 }
 
